@@ -43,7 +43,10 @@ CHECKS = {
     'C10': ("proof", "Coq theorems: generations never decrease, errors change none, every inventory/trait/aggregate(>=1.19) change "
             "and every allocation write strictly increases the provider's / consumer's generation, reported generation = stored; "
             "tied by differential histories; oracle compares generation columns and response generations on the real service; "
-            "provider and consumer generations are monotone along ALL schedules of Model/Conc.v (C10_*_monotone_all_schedules).",
+            "provider and consumer generations are monotone along ALL schedules of Model/Conc.v (C10_*_monotone_all_schedules); exact "
+            "accounting along all schedules of Model/ConcAll.v (every request kind a thread): final generation = initial + the "
+            "increments of the requests answered with success, a request answered >= 300 moves no provider generation, a successful one "
+            "moves it within the bounds of its kind (C10_accounting_all_schedules, C10_accounting_per_request, C10_bounds_by_kind).",
             "6 C10", SEQ_NOTE, "Coq proof (compare-and-swap lemmas per mutator) + vm_compute correspondence + generation oracle"),
     'C12': ("proof", "Coq theorems C12_step / C12_invariant (consumer exists iff it holds allocations, in every reachable state), "
             "C12_attrs, C12_recreate; tied by differential consumer-heavy histories across the version bands; oracle checks the "
@@ -179,7 +182,8 @@ CHECKS.update({
             "computable conditions on query and state (in_tree_hyp, forbidden_aggs_hyp; each proved necessary by a reachable witness) "
             "nothing valid is omitted either (C03_exact_sharing, C03_exact_sharing_reachable); from the query string (Model/DecodeQC.v: regenerated query schemas + the lib.py request-group "
             "assembly + value parsers) every accepted query satisfies query_wf, the assumption of the candidate theorems "
-            "(C03_query_accepted_wf; tie: the real handler on generated query strings with the search replaced by a capture). NOT proved: completeness with sharing providers - it is FALSE: theorems "
+            "(C03_query_accepted_wf); the whole chain from the accepted query string in a reachable state - soundness, conditional "
+            "completeness, claimability at every microversion, limit - is packaged as C03_end_to_end (listing twin C13_end_to_end); tie: the real handler on generated query strings with the search replaced by a capture). NOT proved: completeness with sharing providers - it is FALSE: theorems "
             "C03_refuted_anchor_dedup, C03_refuted_in_tree_pin and C03_needs_forbidden_aggs_hyp exhibit states and queries (replayed on the application on every run, "
             "known findings) on which valid candidates are omitted; a nested sharing provider gives 500 (known finding). Elsewhere equality "
             "is COMPARED, not proved: every generated case is evaluated three ways inside Coq (application answer, code model, "
